@@ -1,6 +1,6 @@
 """Shared anchors and small analyses used by several properties."""
 from facts import callee_keys, callee_matches, strip_generics, operand_place, is_desugar, is_macro
-import q
+import q, json, os
 
 PROVIDER = "resolvo::DependencyProvider"
 INTERNER = "resolvo::Interner"
@@ -34,7 +34,36 @@ def body_by_key(crate, key, coroutine=False):
     for b in crate.bodies:
         if b.key == want:
             return b
+    # a reviewed helper that no longer exists but had exactly one reviewed caller was most likely inlined into that caller by
+    # hand: evaluate the rule on the caller (the mechanism must now be there); rules that cannot find it there still fail
+    cm = _known_callers().get(crate.name, {})
+    seen = set()
+    cur = key
+    for _ in range(3):
+        cs = cm.get(cur) or []
+        if len(cs) != 1 or cs[0] in seen:
+            break
+        seen.add(cs[0])
+        w = cs[0] + "::{closure#0}" if coroutine else cs[0]
+        for b in crate.bodies:
+            if b.key == w:
+                crate.anchor_moves = getattr(crate, "anchor_moves", set()) | {(key, cs[0])}
+                return b
+        cur = cs[0]
     return None
+
+
+_KC = None
+
+
+def _known_callers():
+    global _KC
+    if _KC is None:
+        try:
+            _KC = json.load(open(os.path.join(os.path.dirname(os.path.abspath(__file__)), "known_callers.json")))
+        except FileNotFoundError:
+            _KC = {}
+    return _KC
 
 
 def provider_call(f, method):
